@@ -660,6 +660,32 @@ def scenario_defaultconf(ck, stats, H):
     rmtree_long(sb.root)
 
 
+def scenario_move_literal_multi(ck, stats, L, tail):
+    """three messages moved by one rule to a destination literal of L characters that ends in /new or /cur: "<dst>/new" does not fit, and
+    the first PATH_MAX-1 characters of it are the new/ (cur/) of an existing maildir - none of the three may end up there"""
+    sb = mdrun.Sandbox()
+    src = sb.maildir('src')
+    for i in range(3):
+        sb.add(src, 'new', b'To: a\n\nmulti %d\n' % i)
+    P = deep_dir(sb.root, L - len(tail) - 1)
+    if P is None:
+        sb.cleanup(); return
+    for sub in ('new', 'cur', 'tmp'):
+        makedirs_long(P + '/' + sub)
+    dst = P + '/' + tail
+    conf = sb.write_conf(('maildir "%s" {\n match all move "%s"\n}\n' % (src, dst)).encode())
+    rc, out, err = sb.run([], conf=conf)
+    stats['binary'] += 1
+    fits = len(dst) + len('/new') < PATH_MAX
+    got = files_under(P) or []
+    left = len(sb.snapshot(src))
+    rep = {'scenario': 'move_literal_multi', 'length': L, 'tail': tail, 'exit': rc, 'stderr': err[-300:].decode(errors='replace')}
+    if not fits and (got or left != 3 or rc == 0):
+        ck.violation('three messages, destination literal of %d characters ending in /%s: "<dst>/new" does not fit, yet %d message(s) were delivered into the maildir '
+                     'whose %s/ is the truncation, %d left in the source (exit %d)' % (L, tail, len(got), tail, left, rc), rep)
+    rmtree_long(sb.root)
+
+
 def scenario_tmpdir_exec(ck, stats, L):
     """TMPDIR of length L and three messages piped to a command with exec stdin body: the temporary file "<TMPDIR>/mdsort-XXXXXXXX"
     either fits for every message or for none - the command never runs on a file created under a shortened name."""
@@ -762,6 +788,10 @@ def run(ck):
                 scenario_move_flag(ck, stats, L, form)
     for H in range(PATH_MAX - 13 - 3, PATH_MAX - 13 + 4):
         scenario_defaultconf(ck, stats, H)
+    for L in range(PATH_MAX - 4, PATH_MAX + 1):
+        scenario_move_literal_multi(ck, stats, L, 'new' if L % 2 else 'cur')
+        if ck.tier == 'thorough':
+            scenario_move_literal_multi(ck, stats, L, 'cur' if L % 2 else 'new')
     for k in (1, 2, 3, 5, 8, 12):
         scenario_rewrite_path(ck, stats, k, b'label' if k % 2 else b'add-header')
         if ck.tier == 'thorough':
@@ -771,7 +801,7 @@ def run(ck):
         'distinct_nontrivial': len(stats['nontrivial']),
         'rule': 'pathslice: every path of <= %d components from {"", a, bc, new, md.x} (absolute/relative, trailing slash, empty components) x beg,end in a symmetric '
                 'range x buffer sizes {0,1,2,64,len-1,len,len+1}; pathjoin: lengths around the buffer size; binary: maildir path, interpolated destination, interpolated isdirectory path (directories at the intended path and at its truncations), ~-expanded maildir / destination / isdirectory strings of every length PATH_MAX-3 .. PATH_MAX+2 (judged with -n and at run time), host name, '
-                'destinations of NAME_MAX-4 .. NAME_MAX+8 characters under move merged with flag (decoy maildirs at the NAME_MAX cut), HOME lengths that put "$HOME/.mdsort.conf" at PATH_MAX-3 .. PATH_MAX+3 without -f (decoy configurations at the shortened names), the path of a message rewritten by label / add-header and then piped to a command, 1-12 characters too long with a decoy file at its truncation, TMPDIR as the place of the exec stdin body temporary file over three messages (every length PATH_MAX-21 .. PATH_MAX-12), HOME and TMPDIR at every (quick: every other) length in a window around PATH_MAX / NAME_MAX with decoy maildirs at truncations. '
+                'destinations of NAME_MAX-4 .. NAME_MAX+8 characters under move merged with flag (decoy maildirs at the NAME_MAX cut), three messages under one move whose literal destination of PATH_MAX-4 .. PATH_MAX characters ends in /new or /cur, HOME lengths that put "$HOME/.mdsort.conf" at PATH_MAX-3 .. PATH_MAX+3 without -f (decoy configurations at the shortened names), the path of a message rewritten by label / add-header and then piped to a command, 1-12 characters too long with a decoy file at its truncation, TMPDIR as the place of the exec stdin body temporary file over three messages (every length PATH_MAX-21 .. PATH_MAX-12), HOME and TMPDIR at every (quick: every other) length in a window around PATH_MAX / NAME_MAX with decoy maildirs at truncations. '
                 'non-trivial = the reference returns a string; distinct = distinct requests' % (4 if ck.tier == 'quick' else 5),
         'exhaustive': True,
         'samples': [c for c, _ in cases[1000:1004]],
@@ -804,6 +834,8 @@ def replay(ck, rp):
         scenario_message_path(ck, stats, rp['k'], rp['rule'].encode())
     elif sc == 'hostname':
         scenario_hostname(ck, stats, rp['length'], rp.get('collide', 0))
+    elif sc == 'move_literal_multi':
+        scenario_move_literal_multi(ck, stats, rp['length'], rp['tail'])
     elif sc == 'move_flag':
         scenario_move_flag(ck, stats, rp['length'], rp['form'])
     elif sc == 'defaultconf':
